@@ -86,6 +86,20 @@ def run_case(c):
     out = {"id": c["id"]}
     at = Atoms(numbers=c["nums"], positions=pos, cell=cell, pbc=pbc)
     kind = c["kind"]
+    if c.get("twin", c["id"] % 2 == 1) and any(pbc) and abs(np.linalg.det(cell)) > 1e-9:
+        # process history, before anything else touches this structure: the same kind of calls on a TWIN structure -- same edge
+        # lengths, pbc, extension, cutoff and number of atoms, but an orthogonal cell (state kept between calls and keyed on such
+        # scalar invariants would be reused for the examined structure)
+        try:
+            twin_cell = np.diag(np.linalg.norm(cell, axis=1))
+            tw = Atoms(numbers=c["nums"], positions=np.linalg.solve(cell.T, pos.T).T @ twin_cell, cell=twin_cell, pbc=pbc)
+            MG.get_extended_system(tw, ext)
+            if kind not in ("extend", "extend_deg"):
+                cl_t = MG.get_cell_list(tw.get_positions(), tw.get_cell(), tw.get_pbc(), ext, c["cutoff"] / G)
+                cl_t.get_neighbours_for_position(0.1, 0.2, 0.3)
+            out["twin_first"] = True
+        except Exception:
+            pass
     if kind in ("extend", "extend_deg"):
         if c.get("history"):
             for e2 in (ext * 0.5, ext * 1.5):
